@@ -56,6 +56,10 @@ def make_dataset(spec, n=None, seed=None):
             z[:, f] = col / sd
     data = np.empty((N, F))
     for f in range(F):
+        if scales[f] == 0.0:
+            # a coefficient that is the same in every vector, at a value without an exact binary representation
+            data[:, f] = 0.7 + 0.1 * float(spec["m"][f])
+            continue
         data[:, f] = float(spec["m"][f]) * scales[f] + scales[f] * z[:, f]
     if dt.kind == "i":
         data = np.rint(data)
@@ -201,7 +205,7 @@ def _pres():
 
 
 @st.composite
-def dataset_specs(draw, min_n=2, dtypes=("f64", "f64", "f32", "i16", "i32")):
+def dataset_specs(draw, min_n=2, dtypes=("f64", "f64", "f32", "i16", "i32"), allow_const=False):
     F = draw(st.sampled_from([1, 2, 2, 3, 3, 4, 5, 6]))
     # location in units of the spread: mostly moderate, sometimes an offset hundreds of times the spread
     # (|mean|/std up to 1e3 keeps the float64 cancellation in E[x^2]-mean^2 far below the tolerance)
@@ -211,7 +215,8 @@ def dataset_specs(draw, min_n=2, dtypes=("f64", "f64", "f32", "i16", "i32")):
         # mostly a handful of vectors; one data set in nine is corpus-sized (block-wise reductions only differ there)
         "N": draw(st.sampled_from([n for n in [1, 2, 2, 3, 4, 5, 6, 7, 8, 9, 10, 12] * 2 + [300, 2049, 2500, 5000] if n >= min_n])),
         "m": [draw(mult) for _ in range(F)],
-        "s": [draw(st.sampled_from([1.0, 1.0, 2.0, 5.0, 20.0, 3.7])) for _ in range(F)],
+        # spread per coefficient; 0 = constant coefficient (only where the variance is not used)
+        "s": [draw(st.sampled_from([1.0, 1.0, 2.0, 5.0, 20.0, 3.7] + ([0.0] if allow_const else []))) for _ in range(F)],
         "dtype": draw(st.sampled_from(list(dtypes))),
         "seed": draw(st.integers(0, 2 ** 32 - 1)),
     }
@@ -251,12 +256,14 @@ def apply_specs(draw, min_vectors=1, allow_vec=True):
 @st.composite
 def values_cases(draw):
     norm_var = draw(st.sampled_from([True, True, False]))
-    data = draw(dataset_specs(min_n=2 if norm_var else 1))
+    data = draw(dataset_specs(min_n=2 if norm_var else 1, allow_const=not norm_var))
     return {
         "data": data,
         "norm_var": norm_var,
         "hist": draw(histories(data["N"])),
         "apply": draw(apply_specs()),
+        # "loaded statistics": the accumulated statistics are saved and the transform is applied by a new object built from the file
+        "via": draw(st.sampled_from([None, None, "stats.npy", "stats.npz", "stats.bin", "stats"])),
     }
 
 
@@ -356,6 +363,19 @@ def check_values(case):
     s = _fresh(norm_var)
     tags = run_history(s, data, case["hist"])
     require(bool(s.have_stats), "have_stats is false after {} accumulate calls", len(tags))
+    via = case.get("via")
+    if via:
+        import os
+        import tempfile
+
+        from pydrobert.speech.post import Standardize
+
+        with tempfile.TemporaryDirectory(prefix="verif_c16_") as td:
+            path = os.path.join(td, via)
+            call("save(%s)" % via, s.save, path)
+            kw = {} if via.endswith((".npy", ".npz")) else {"force_as": "file"}
+            s = call("Standardize(rfilename=%r%s)" % (via, ", force_as='file'" if kw else ""), Standardize, path, norm_var=norm_var, **kw)
+        require(bool(s.have_stats), "have_stats is false after loading statistics from {}", via)
     app = case["apply"]
     x, axis, atag = make_apply_input(spec, app)
     in_place = bool(app.get("in_place", False))
@@ -368,7 +388,11 @@ def check_values(case):
     out2, _ = apply_checked(s, x0.copy(), axis, False, "Standardize (2nd)")
     compare("second apply with the same statistics", out2, ref, tol)
     nontrivial = len(set(tags)) >= 2 and float(mean.min()) < 0
-    return {"nontrivial": nontrivial, "labels": _labels(spec, tags, mean, norm_var, atag, in_place)}
+    labels = _labels(spec, tags, mean, norm_var, atag, in_place)
+    labels.append("statistics loaded from ." + via.rsplit(".", 1)[-1] if via and "." in via else ("statistics loaded from a raw file" if via else "statistics accumulated"))
+    if any(float(v) == 0.0 for v in spec["s"]) and not spec["dtype"].startswith("i"):
+        labels.append("constant coefficient")
+    return {"nontrivial": nontrivial, "labels": labels}
 
 
 def check_additive(case):
